@@ -45,23 +45,31 @@ def _sector_cases(cls, Ls, qds, Ds, kinds, extra=(5,)):
 
 def run_case(case, ctx):
     cls, mode, qd, qD, kind = case
-    L = len(qD) - 1
-    d = len(qd)
     if cls == 'MPS':
         obj = MPS(qd, qD, fill='postpone')
         obj.A = palette.mps_tensors(ctx.rng(0), qd, qD, kind)
-        v0 = dense.mps_to_vector(obj.A)
-        dloc = d
     else:
         obj = MPO(qd, qD, fill='postpone')
         obj.A = palette.mpo_tensors(ctx.rng(0), qd, qD, kind)
+    ctx.cls('kind:' + kind)
+    judge_orthonormalize(ctx, obj, cls, mode)
+
+
+def judge_orthonormalize(ctx, obj, cls, mode, prefix=''):
+    """Run obj.orthonormalize(mode) on the real object and judge every clause of C01 against own dense contractions."""
+    qD = [list(np.asarray(q).tolist()) for q in obj.qD]
+    L = len(qD) - 1
+    d = len(obj.qd)
+    if cls == 'MPS':
+        v0 = dense.mps_to_vector(obj.A)
+        dloc = d
+    else:
         v0 = dense.mpo_to_matrix(obj.A)
         dloc = d * d
     old_dims = [len(q) for q in qD]
     nrm0 = float(np.linalg.norm(v0))
     nrm = obj.orthonormalize(mode=mode)
     ctx.calls += 1
-    ctx.cls('kind:' + kind)
     ctx.cls('zero_state' if nrm0 == 0 else 'nonzero_state')
     A = obj.A
     new_dims = [A[0].shape[-2]] + [a.shape[-1] for a in A]
@@ -70,39 +78,53 @@ def run_case(case, ctx):
     if new_dims != old_dims:
         ctx.cls('bond_reduced')
     # returned factor
-    ok = ctx.check(np.isrealobj(nrm) and np.ndim(nrm) == 0, 'factor_is_real_scalar', repr(nrm))
+    ok = ctx.check(np.isrealobj(nrm) and np.ndim(nrm) == 0, prefix + 'factor_is_real_scalar', repr(nrm))
     if not ok:
         return
     nrm = float(nrm)
-    ctx.check(nrm >= 0, 'factor_non_negative', nrm)
-    ctx.check(abs(nrm - nrm0) <= 1e-10 * (1 + nrm0), 'factor_equals_norm', f'{nrm} vs {nrm0}')
+    ctx.check(nrm >= 0, prefix + 'factor_non_negative', nrm)
+    ctx.check(abs(nrm - nrm0) <= 1e-10 * (1 + nrm0), prefix + 'factor_equals_norm', f'{nrm} vs {nrm0}')
     # shapes chain up
     for i in range(L - 1):
         if A[i].shape[-1] != A[i + 1].shape[-2]:
-            ctx.fail('bond_dimensions_chain', f'site {i}: {A[i].shape} {A[i+1].shape}')
+            ctx.fail(prefix + 'bond_dimensions_chain', f'site {i}: {A[i].shape} {A[i+1].shape}')
             return
     v1 = dense.mps_to_vector(A) if cls == 'MPS' else dense.mpo_to_matrix(A)
     ctx.obs(v1, np.float64(nrm))
-    ctx.close(nrm * v1, v0, 'factor_times_new_equals_original', scale=nrm0)
+    ctx.close(nrm * v1, v0, prefix + 'factor_times_new_equals_original', scale=nrm0)
     if nrm0 > 0:
-        ctx.check(abs(np.linalg.norm(v1) - 1) <= 1e-10, 'unit_norm_after', np.linalg.norm(v1))
+        ctx.check(abs(np.linalg.norm(v1) - 1) <= 1e-10, prefix + 'unit_norm_after', np.linalg.norm(v1))
     # isometries
     for i, a in enumerate(A):
         if mode == 'left':
             e = dense.is_isometry_left(a)
         else:
             e = dense.is_isometry_right(a, a.ndim - 2)
-        ctx.check(e <= 1e-10, 'site_tensor_isometric', f'site {i} deviation {e:.2e}')
+        ctx.check(e <= 1e-10, prefix + 'site_tensor_isometric', f'site {i} deviation {e:.2e}')
     # bond bounds
     if mode == 'left':
         for i in range(L):
             lim = min(dloc * new_dims[i], old_dims[i + 1])
-            ctx.check(new_dims[i + 1] <= lim, 'bond_not_larger_than_neighbours_allow', f'bond {i+1}: {new_dims[i+1]} > {lim}')
+            ctx.check(new_dims[i + 1] <= lim, prefix + 'bond_not_larger_than_neighbours_allow', f'bond {i+1}: {new_dims[i+1]} > {lim}')
     else:
         for i in reversed(range(L)):
             lim = min(dloc * new_dims[i + 1], old_dims[i])
-            ctx.check(new_dims[i] <= lim, 'bond_not_larger_than_neighbours_allow', f'bond {i}: {new_dims[i]} > {lim}')
-    ctx.check(new_dims[0] == 1 and new_dims[-1] == 1, 'outer_bonds_stay_one', new_dims)
+            ctx.check(new_dims[i] <= lim, prefix + 'bond_not_larger_than_neighbours_allow', f'bond {i}: {new_dims[i]} > {lim}')
+    ctx.check(new_dims[0] == 1 and new_dims[-1] == 1, prefix + 'outer_bonds_stay_one', new_dims)
+
+
+def _history_probe(w, ctx):
+    import copy
+    for mode in ('left', 'right'):
+        judge_orthonormalize(ctx, copy.deepcopy(w.psi), 'MPS', mode, prefix='history:')
+        judge_orthonormalize(ctx, copy.deepcopy(w.H), 'MPO', mode, prefix='history:')
+
+
+def replay_case(space, case, seed):
+    if space.name == 'history_states':
+        from props import hist_probe
+        return hist_probe.replay(space, case, seed)
+    return space.run_one(case, seed).fails
 
 
 def sig(case):
@@ -111,6 +133,8 @@ def sig(case):
 
 
 def spaces(tier, seed):
+    from props import hist_probe
+    hist = hist_probe.probe_space('history_states', ['xxz3', 'ising3', 'fh2', 'bh3', 'linf3', 'mol4'], 2 if tier == 'quick' else 3, _history_probe)
     if tier == 'quick':
         def md_mps(L, d, prof):
             return None if (d + sum(prof)) <= 5 else 3
@@ -134,6 +158,7 @@ def spaces(tier, seed):
             Space('mpo', core.chunked(_cases('MPO', [1, 2, 3], [1, 2], [1, 2], palette.A3, md_mpo), 600), run_case=run_case, sig=sig,
                   bounds={'L': [1, 2, 3], 'd': [1, 2], 'D': [1, 2], 'charges': 'A3, full product when d+sum(D)<=4 else <=2 non-zero charges',
                           'kinds': KINDS}),
+            hist,
         ]
     def md_t(L, d, prof):
         return None if (d + sum(prof)) <= 7 else 4
@@ -154,4 +179,5 @@ def spaces(tier, seed):
               bounds={'L': [1, 2, 3, 4], 'd': [1, 2, 3], 'D': [1, 2, 3], 'charges': 'A3, full when d+sum(D)<=7 else <=4 non-zero', 'kinds': KINDS}),
         Space('mpo', core.chunked(_cases('MPO', [1, 2, 3], [1, 2], [1, 2, 3], palette.A3, md_t2), 600), run_case=run_case, sig=sig,
               bounds={'L': [1, 2, 3], 'd': [1, 2], 'D': [1, 2, 3], 'charges': 'A3, full when d+sum(D)<=6 else <=3 non-zero', 'kinds': KINDS}),
+        hist,
     ]
